@@ -230,7 +230,26 @@ def candidate_values(rng, spec, specs):
         out.append((np.zeros(shape[:-1], dt), "wrong_rank"))
     other = np.dtype("float32") if dt != np.dtype("float32") else np.dtype("int32")
     out.append((base.astype(other), "wrong_dtype"))
+    # plain Python objects (scalars / nested lists): "once converted to JAX arrays" they take JAX's default dtype
+    # (int32 / float32 / bool), which may or may not be the declared one - the oracle converts them the same way
+    py = []
+    for v, tag in list(out)[:4]:
+        if v.size <= 64:
+            py.append((v.tolist(), "py_" + tag))
+            if dt != np.bool_ and np.issubdtype(dt, np.integer):
+                # a fractional Python float near an integer member, an out-of-range Python int
+                py.append(((v.astype(np.float64) + 0.4).tolist(), "py_fraction_" + tag))
+            if dt == np.bool_:
+                py.append(((v.astype(np.int64) * 3).tolist(), "py_int_for_bool_" + tag))
+    if np.issubdtype(dt, np.unsignedinteger) and size <= 64:
+        py.append((np.full(shape, -1, np.int64).tolist(), "py_negative_for_unsigned"))
+    out.extend(py)
     return out
+
+
+def _show(v):
+    a = np.asarray(v)
+    return a.tolist() if a.size < 20 else str(a.shape)
 
 
 # ------------------------------------------------------------------------------------------- the operations
@@ -272,7 +291,12 @@ class Judge:
         # 2. validate accepts exactly the members
         members, outsiders = [], []
         for v, tag in candidate_values(rng, spec, specs):
-            conv = np.asarray(jnp.asarray(v))
+            try:
+                conv = np.asarray(jnp.asarray(v))
+            except (OverflowError, TypeError, ValueError):
+                continue  # a Python object JAX itself cannot convert: outside the statement
+            if tag.startswith("py_"):
+                self.rep.count("python_object_values")
             member = not SM.problems(spec, conv)
             self.ev("validate_accepts_iff_member")
             self.rep.count(f"value_{tag}")
@@ -282,16 +306,17 @@ class Judge:
             except ValueError:
                 accepted = False
             except Exception as e:
-                self.viol("validate_raises_only_valueerror", spec, {"value": v.tolist() if v.size < 20 else str(v.shape), "error": repr(e)[:200]})
+                self.viol("validate_raises_only_valueerror", spec, {"value": _show(v), "tag": tag, "error": repr(e)[:200]})
                 continue
             if accepted != member:
-                self.viol("validate_accepts_iff_member", spec, {"value": v.tolist() if v.size < 20 else str(v.shape), "tag": tag, "accepted": accepted, "member": member},
+                self.viol("validate_accepts_iff_member", spec, {"value": _show(v), "tag": tag, "accepted": accepted, "member": member},
                           qualifier=("accepts_nonmember" if accepted else "rejects_member") + ":" + tag)
             elif accepted:
                 rr = np.asarray(r)
                 if rr.shape != conv.shape or rr.dtype != conv.dtype or not np.array_equal(rr, conv, equal_nan=True):
                     self.viol("validate_returns_value", spec, {"tag": tag})
-            (members if member else outsiders).append((v, tag))
+            if not tag.startswith("py_"):
+                (members if member else outsiders).append((v, tag))
         # 3. replace
         self.ev("replace_noargs_equal")
         try:
